@@ -142,7 +142,7 @@ func (b *MetaBox) EncodeSW(sw bits.SliceWriter) error {
 			return err
 		}
 	}
-	return nil
+	return sw.AccError()
 }
 
 // Info writes box-specific info
